@@ -63,6 +63,7 @@ type SimStream struct {
 	Closed    bool
 	Delivered []*DeliveredPack
 	RegNo     int
+	RegStep   int
 	SeekNil   bool
 	SeekSeq   int
 	SeekTs    uint64
@@ -112,6 +113,7 @@ func (m *SimMQ) Register(ctx context.Context, cfg *msgdispatcher.StreamConfig) (
 	st.Coll, st.Shard = parseVChan(vch)
 	m.regSeq++
 	st.RegNo = m.regSeq
+	st.RegStep = m.sim.Step
 	if cfg.Pos == nil || len(cfg.Pos.MsgID) == 0 {
 		st.SeekNil = true
 		st.next = m.latestIndex(pch)
